@@ -77,14 +77,15 @@ def wide_cases(u, groups, rng, tier, op):
     width must not be mistaken for depth"""
     out = []
     names = groups.get('maps', []) + groups.get('maps1', []) + groups.get('lists', []) + groups.get('defaults', []) + groups.get('holder', [])
-    widths = [1100] if tier == 'quick' else [1021, 1022, 1100, 2600]
+    widths = [1100] if tier == 'quick' else [1021, 1022, 1100]
     if tier == 'quick':
         # one per shape of interest: string / struct / container keys and values, lists of structs
         pick = ['M1StringXI64', 'M1I32XPLeaf', 'M1I64XLeaf', 'M1I8XMapI16String', 'M1PLeafXI16', 'M1I16XListI32', 'MpI32',
                 'LiPLeaf', 'LiSetString', 'LiMapStringPLeaf', 'M1I16XBinary', 'DefHolder', 'HoldNest']
         names = [n for n in pick if n in u.by_name]
     for i, name in enumerate(names):
-        for w in widths:
+        # double keys: the model's key comparison is costly in the extracted code; one width is enough
+        for w in (widths[-1:] if 'Double' in name else widths):
             r = rng.fork('wide%s%d' % (name, w))
             v = ValGen(u, r, max_depth=2, wide=w).val(st(name))
             if op == 'rt':
@@ -704,6 +705,33 @@ def hook_cases_bitset(rng, tier):
     return out
 
 
+def hook_cases_unknown_ops(rng, tier):
+    """one pooled recorder through several decodes' worth of Reset / Add / Size / Copy, with index
+    growth (8, 16, 32, 64, 128 ... entries) between them"""
+    out = []
+    for h in range(12 if tier == 'quick' else 200):
+        r = rng.fork('ufo%d' % h)
+        b = bytes(r.below(256) for _ in range(r.pick([16, 64, 300])))
+        ops = []
+        for sess in range(r.pick([2, 3, 5])):
+            ops.append('(0)')
+            n = r.pick([0, 1, 2, 7, 8, 9, 17, 63, 64, 65, 66, 129, 300])
+            for _ in range(n):
+                off = r.below(len(b))
+                sz = r.below(min(9, len(b) - off) + 1)
+                ops.append('(1 %d %d)' % (off, sz))
+                if r.chance(1, 40):
+                    ops.append('(3)')
+            ops.append('(3)')
+            ops.append('(2)')
+            if r.chance(1, 3):
+                ops.append('(2)')
+        if h % 6 == 5:
+            ops += ['(0)', '(1 %d 8)' % (len(b) - 3), '(2)']       # extent beyond the input: a Go panic, not a wild read
+        out.append(('(unknownops %s %s)' % (b.hex(), ' '.join(ops)), {'op': 'unknownops'}))
+    return out
+
+
 def hook_cases_unknown(rng, tier):
     out = []
     for h in range(20 if tier == 'quick' else 300):
@@ -729,7 +757,7 @@ def c09_all(u, g, r, t):
 
 
 def c11_all(u, g, r, t):
-    return _c11(u, g, r, t) + hook_cases_unknown(r.fork('unknown'), t)
+    return _c11(u, g, r, t) + hook_cases_unknown(r.fork('unknown'), t) + hook_cases_unknown_ops(r.fork('unknownops'), t)
 
 
 def c02_all(u, g, r, t):
